@@ -102,6 +102,18 @@ def self_ty_base(t):
     return t.split("::")[-1].strip()
 
 
+CONST_LITS = {}   # name -> text of `const NAME: &str / char = <literal>` of the analysed crates (None: ambiguous)
+
+
+def const_text(a):
+    """literal text of an expression that names a text constant, else None"""
+    a = strip_ref(a)
+    if a.get("k") == "path" and CONST_LITS.get(a["segs"][-1]) is not None and a["segs"][-1].isupper() or \
+            (a.get("k") == "path" and CONST_LITS.get(a["segs"][-1]) is not None and a["segs"][-1].upper() == a["segs"][-1]):
+        return CONST_LITS[a["segs"][-1]]
+    return None
+
+
 class Index:
     """All items of one lowered crate (expanded view) or of the original files."""
 
@@ -118,6 +130,14 @@ class Index:
         self.by_qual = {}
         for fn in self.fns:
             self.by_qual.setdefault(fn.qual, []).append(fn)
+        # named text constants: `w.push(STAT_SEP)` writes the same text as `w.push(';')`
+        for (_m, name), it in self.consts.items():
+            e = it.get("e") or {}
+            if e.get("k") == "lit" and e.get("t") in ("str", "char"):
+                if name in CONST_LITS and CONST_LITS[name] != e["v"]:
+                    CONST_LITS[name] = None
+                else:
+                    CONST_LITS[name] = e["v"]
 
     def _items(self, items, module, file, test_too, top=False):
         for it in items or []:
@@ -446,8 +466,18 @@ def format_args_of(n):
                 node = pos[int(arg)] if int(arg) < len(pos) else None
             else:
                 node = named.get(arg) or {"k": "path", "s": arg, "segs": [arg], "sp": n["sp"]}
-            pieces.append(("hole", node, p[2]))
-    return pieces, rest
+            if node is not None and p[2] in ("", None) and const_text(node) is not None:
+                pieces.append(("lit", const_text(node)))
+            else:
+                pieces.append(("hole", node, p[2]))
+    # merge adjacent literal pieces
+    merged = []
+    for pc in pieces:
+        if pc[0] == "lit" and merged and merged[-1][0] == "lit":
+            merged[-1] = ("lit", merged[-1][1] + pc[1])
+        else:
+            merged.append(pc)
+    return merged, rest
 
 
 def write_fmt_call(n):
@@ -464,6 +494,8 @@ def write_fmt_call(n):
     # the same text written without the macro: `w.write_str(x)`, `s.push_str(x)`, `s.push('c')`, `w.write_char('c')`
     if isinstance(n, dict) and n.get("k") == "mcall" and len(n.get("args", [])) == 1:
         a = strip_ref(n["args"][0])
+        if n["m"] in ("write_str", "push_str", "write_char", "push") and const_text(a) is not None:
+            return n["recv"], [("lit", const_text(a))]
         if n["m"] in ("write_str", "push_str"):
             if a.get("k") == "lit" and a.get("t") == "str":
                 return n["recv"], [("lit", a["v"])]
